@@ -155,8 +155,8 @@ func (r *Router) match(method, path string) (rt *Route, ps Params) {
 		return route, nil
 	}
 
-	// find in cached routes
-	if r.enableCaching {
+	// find in cached routes. NOTICE: the cache is created on add first route, so it may be nil.
+	if r.enableCaching && r.cachedRoutes != nil {
 		route, ok := r.cachedRoutes.Get(method + path)
 		if ok {
 			return route, route.params
@@ -196,7 +196,7 @@ func (r *Router) match(method, path string) (rt *Route, ps Params) {
 
 // cache dynamic Params route when EnableRouteCache is true
 func (r *Router) cacheDynamicRoute(key string, ps Params, route *Route) {
-	if !r.enableCaching {
+	if !r.enableCaching || r.cachedRoutes == nil {
 		return
 	}
 
